@@ -1,6 +1,7 @@
 """./check configuration for C19 (see verif_props.py)."""
 
-PROP = {'race': True,
+PROP = {'technique': 'Lean backing-array heap model of WithAttrs for every growth policy, JSON encoder model with proved read-back, no-interleave LTS, regenerated skeletons; differential tie on derivation trees + concurrent emission',
+ 'race': True,
  'module': 'GolibsVerif.Theorems.C19',
  'namespace': 'GolibsVerif.C19',
  'rule': 'C19.tree: scripts of WithAttrs derivations (depth <= 5, sibling fan-out), Handle and Enabled calls over records whose attributes '
